@@ -11,6 +11,7 @@ import random
 from scen import Scn
 import scenario_common as sc
 import mcrapid
+import forced
 
 PHASES = ["init", "dispatched", "responded", "reset", "slowreset", "failreset", "done"]
 
@@ -162,6 +163,7 @@ def run(ctx):
     ctx.assumptions += sc.ASSUME
     sc.run_families(ctx, scenarios(ctx), "second-caller")
     sc.run_families(ctx, fe_scenarios(ctx), "frontend-second")
+    sc.run_families(ctx, forced.scenarios('c10', ('double-reset',)), "forced-schedule")
     ctx.coverage["exhaustive"] = False
 
 
